@@ -12,6 +12,8 @@ import shutil
 from harness import tlc, par, realworld
 from checks import clitools, mibcompile
 
+# ground-truth formulas of RealWorldTrace.tla that belong to each property
+TRUTH = {'C08': ('SourceTruth',), 'C10': ('SearcherTruth',), 'C19': ('BorrowerTruth',), 'C07': ('WriterTruth',), 'C09': ()}
 RW_TIMES = {'src': (101, 102), 'bor': 201, 'fresh': 1000, 'stale': 50}
 # tier -> [(label, Dom, Keep, cap)]
 SLICES = {
@@ -70,6 +72,15 @@ def run(out, prop, tier, seed, only_slices=None):
         verdicts, vres = mibcompile.validate(traces, 2, 2, 1)
         if vres:
             out.add_tlc(vres, 'MibCompileTrace/' + label)
+        # second validation: against the answers the DISK dictates (EnvOf(world)), see RealWorldTrace.tla
+        wpath = os.path.join(base, 'wtraces-%s.json' % label)
+        with open(wpath, 'w') as fh:
+            json.dump([{'id': t['id'], 'w': raw[t['id']][0], 'log': t['log'], 'proc': t['proc'], 'ended': t['ended']} for t in traces], fh)
+        wcfg = clitools.DUMP_CFG.format(nsea=2, fmt='json', dom='Dom_usage', keep='KeepAll') + 'INIT TInit\nNEXT TNext\nINVARIANT Report\n'
+        wres = tlc.run('RealWorldTrace', 'w.cfg', files={'w.cfg': wcfg}, env={'TRACE_FILE': wpath}, workers=8, timeout=6000)
+        out.add_tlc(wres, 'RealWorldTrace/' + label)
+        os.unlink(wpath)
+        wverd = {v['id']: v for v in wres.exports}
         for t in traces:
             v = verdicts.get(t['id'])
             w, tr = raw[t['id']]
@@ -84,6 +95,18 @@ def run(out, prop, tier, seed, only_slices=None):
                 out.violation('formula=%s;real-components' % f,
                               '%s fails with real components for %s: [%s]' % (f, clitools.brief_world(w, 'json'), mibcompile.brief(tr)),
                               {'kind': 'realworld', 'world': w, 'observed': tr, 'verdict': v})
+            wv = wverd.get(t['id'])
+            if wv is None:
+                out.machinery_errors.append('no world verdict for trace %s' % t['id'])
+                continue
+            truth = [f for f in wv['failed'] if f in TRUTH.get(prop, ())]
+            for f in truth:
+                out.violation('formula=%s;real-components' % f,
+                              '%s fails: a real component answers against what is on disk, for %s: [%s]' % (f, clitools.brief_world(w, 'json'), mibcompile.brief(tr)),
+                              {'kind': 'realworld', 'world': w, 'observed': tr, 'verdict': wv})
+            if not bad and not truth and wv['refine'] != 'ok':
+                out.add_drift('real components vs world model, slice=%s at=%s expected=%s got=%s procOk=%s truth=%s %s [%s]' % (
+                    label, wv['at'], wv['expected'], wv['got'], wv['procOk'], wv['failed'], clitools.brief_world(w, 'json'), mibcompile.brief(tr)))
             if not bad and v['refine'] != 'ok':
                 out.add_drift('real components, slice=%s at=%s expected=%s got=%s procOk=%s %s [%s]' % (
                     label, v['at'], v['expected'], v['got'], v['procOk'], clitools.brief_world(w, 'json'), mibcompile.brief(tr)))
